@@ -134,6 +134,7 @@ func (aux *Aux) LoadForm() slip.Object {
 		keys = append(keys, k)
 	}
 	sort.Strings(keys)
+	written := 0
 	for _, k := range keys {
 		method := aux.methods[k]
 		sll := make(slip.List, len(method.Doc.Args))
@@ -163,6 +164,7 @@ func (aux *Aux) LoadForm() slip.Object {
 				}
 				mdef = append(mdef, lam.Forms...)
 				gdef = append(gdef, mdef)
+				written++
 			}
 			if lam, ok := method.Combinations[0].Before.(*slip.Lambda); ok {
 				mdef := slip.List{slip.Symbol(":method"), slip.Symbol(":before"), sll}
@@ -171,6 +173,7 @@ func (aux *Aux) LoadForm() slip.Object {
 				}
 				mdef = append(mdef, lam.Forms...)
 				gdef = append(gdef, mdef)
+				written++
 			}
 			if lam, ok := method.Combinations[0].After.(*slip.Lambda); ok {
 				mdef := slip.List{slip.Symbol(":method"), slip.Symbol(":after"), sll}
@@ -179,6 +182,7 @@ func (aux *Aux) LoadForm() slip.Object {
 				}
 				mdef = append(mdef, lam.Forms...)
 				gdef = append(gdef, mdef)
+				written++
 			}
 			if lam, ok := method.Combinations[0].Wrap.(*slip.Lambda); ok {
 				mdef := slip.List{slip.Symbol(":method"), slip.Symbol(":around"), sll}
@@ -187,8 +191,15 @@ func (aux *Aux) LoadForm() slip.Object {
 				}
 				mdef = append(mdef, lam.Forms...)
 				gdef = append(gdef, mdef)
+				written++
 			}
 		}
+	}
+	// A generic function whose methods are all built in, the readers and
+	// writers defclass makes, is defined by the defclass form and not by a
+	// defgeneric that would replace those methods.
+	if 0 < len(keys) && written == 0 {
+		return nil
 	}
 	return gdef
 }
